@@ -2,10 +2,12 @@ module kv
 
 go 1.21
 
-require github.com/sboehler/knut v0.0.0
+require (
+	github.com/sboehler/knut v0.0.0
+	github.com/shopspring/decimal v1.3.1
+)
 
 require (
-	github.com/shopspring/decimal v1.3.1 // indirect
 	github.com/sourcegraph/conc v0.3.0 // indirect
 	golang.org/x/exp v0.0.0-20230817173708-d852ddb80c63 // indirect
 	golang.org/x/sync v0.3.0 // indirect
